@@ -524,9 +524,9 @@ reg(Prop("C03", "OwningIovec FIFO pipe",
          bounds_thorough="6 skeletons incl. placeholder + merging copy + two consumes, and the two-byte-placeholder over-asking skeleton",
          outside=IOV_OUTSIDE + [IOV_NOT_DECIDED], assumptions=IOV_ASSUME))
 reg(Prop("C04", "pending backpatches invisible",
-         quick=[iov_job("k8q_consume_clamped_to_stable_prefix"), iov_job("k6q_take_moves_pending_placeholder")],
-         thorough=[iov_job(n, 3000, 24) for n in ("k1_patch_merge_consume", "k8q_consume_clamped_to_stable_prefix", "k8_overasking_consumers_with_pending", "k6q_take_moves_pending_placeholder")],
-         bounds_quick="2 skeletons with one placeholder in flight: over-asking slice consumer before and after the backfill; take() with a pending placeholder; stable prefix never reaches the earliest pending placeholder, iovs()/has_pending_backrefs agree, after the backfill everything is consumable with the filled value",
+         quick=[iov_job("k8q_consume_clamped_to_stable_prefix"), iov_job("k6q_take_moves_pending_placeholder"), c16_job("pairs", 3), codecx.AdvanceSlices("quick", pid="C04")],
+         thorough=[iov_job(n, 3000, 24) for n in ("k1_patch_merge_consume", "k8q_consume_clamped_to_stable_prefix", "k8_overasking_consumers_with_pending", "k6q_take_moves_pending_placeholder")] + [c16_job("pairs", 3, timeout=1800), codecx.AdvanceSlices("thorough", pid="C04")],
+         bounds_quick="the placeholder table itself: one pop_first step of SortedDeque from every valid tombstone layout of <= 5 items (the container behind OwningIovec::backrefs; job shared with C16); advance_slices never consumes into the slice of a pending placeholder (Engine X kernel); 2 skeletons with one placeholder in flight: over-asking slice consumer before and after the backfill; take() with a pending placeholder; stable prefix never reaches the earliest pending placeholder, iovs()/has_pending_backrefs agree, after the backfill everything is consumable with the filled value",
          bounds_thorough="4 skeletons incl. a placeholder merged with a following copy and a two-byte placeholder",
          outside=IOV_OUTSIDE + ["more than one placeholder in flight inside this family (the four-placeholder / out-of-order-fill skeletons did not finish; out-of-order fills are exercised at the SortedDeque level by C16 and through the Encoder by C07/C09)", IOV_NOT_DECIDED],
          assumptions=IOV_ASSUME))
@@ -600,13 +600,15 @@ p02.technique = p07.technique
 reg(p02)
 
 p01 = Prop("C01", "decode(encode(x)) == x",
-           quick=[codecx.RoundTrip("quick"), codecx.EncoderVsReference("quick"), codecx.DecoderVsReference("quick")],
-           thorough=[codecx.RoundTrip("thorough"), codecx.EncoderVsReference("thorough"), codecx.DecoderVsReference("thorough"), codecx.ApiProduction("thorough", pid="C01", name="c01::public_api_production_limits[mirx]")],
-           bounds_quick="the DecoderState MIR executed on every symbolic output of the EncoderState MIR: every byte string of length <= 5, encoder input cut at 0 / middle / end (copy+borrow), encoded stream cut at 0 / middle / end (borrow+copy), limits (2,3),(1,2) and production; plus both halves against the reference codec (C07 jobs)",
+           quick=[codecx.RoundTrip("quick"), codecx.EncoderVsReference("quick"), codecx.DecoderVsReference("quick"),
+                  iov_job("k8q_consume_clamped_to_stable_prefix"), codecx.AdvanceSlices("quick", pid="C01")],
+           thorough=[codecx.RoundTrip("thorough"), codecx.EncoderVsReference("thorough"), codecx.DecoderVsReference("thorough"), codecx.ApiProduction("thorough", pid="C01", name="c01::public_api_production_limits[mirx]"),
+                     iov_job("k8q_consume_clamped_to_stable_prefix", 3000, 24), codecx.AdvanceSlices("thorough", pid="C01")],
+           bounds_quick="drain side: ConsumingIovec::consume never crosses a pending placeholder when over-asked (Kani skeleton k8q), advance_slices drops min(count, stable bytes) (Engine X kernel over a stubbed stable prefix); codec side: the DecoderState MIR executed on every symbolic output of the EncoderState MIR: every byte string of length <= 5, encoder input cut at 0 / middle / end (copy+borrow), encoded stream cut at 0 / middle / end (borrow+copy), limits (2,3),(1,2) and production; plus both halves against the reference codec (C07 jobs)",
            bounds_thorough="length <= 7, every encoder cut, every decoder cut, five limit pairs; public API at the production chunk boundaries against the reference",
-           outside=X_OUTSIDE + ["the encoded stream is handed to the decoder as a byte string: draining it through ConsumingIovec / Read (advance_slices) is not part of this check (consume() is covered by C03/C04)"],
-           assumptions=X_ASSUME, trusted=X_TRUST)
-p01.technique = "symbolic execution of the MIR of both state machines composed (decoder run on the encoder's symbolic output), SMT queries (z3 + cvc5)"
+           outside=X_OUTSIDE + ["the encoded stream is handed to the decoder as a byte string; the drain path is decided separately and only in part: consume() on one skeleton, advance_slices as an arithmetic kernel; Read::read and the real stable_prefix next to several placeholders are not decided"],
+           assumptions=X_ASSUME + IOV_ASSUME, trusted=X_TRUST)
+p01.technique = "symbolic execution of the MIR of both state machines composed (decoder run on the encoder's symbolic output), SMT queries (z3 + cvc5); bounded model checking (Kani/CBMC) of the consume() skeleton"
 reg(p01)
 
 C06_Q = [c08_job(4, 0, sched=1, timeout=800), c08_job(6, 4, sched=0, timeout=800), c17_job(3, "fresh"), c17_job(1, "fresh")]
